@@ -4,18 +4,19 @@ and record which fire in seeded/<id>/meta.json (checks_fired_final) and in seede
 import json, os, subprocess, sys
 VERIF = os.path.dirname(os.path.dirname(os.path.abspath(__file__)))
 PROPS = [json.loads(l)["id"] for l in open(os.path.join(VERIF, "properties.jsonl"))]
+ROOT = os.environ.get("VERIF_MATRIX_ROOT", "/repo")      # a scratch git checkout of /repo HEAD may stand in (checks run with --root)
 def sh(c, cwd=None):
     r = subprocess.run(c, shell=True, cwd=cwd, stdout=subprocess.PIPE, stderr=subprocess.STDOUT, text=True)
     return r.returncode, r.stdout
 only = sys.argv[1:]
 rows = []
-assert not sh("git status --short", "/repo")[1].strip(), "/repo not clean"
+assert not sh("git status --short", ROOT)[1].strip(), ROOT + " not clean"
 for sid in sorted(os.listdir(os.path.join(VERIF, "seeded"))):
     d = os.path.join(VERIF, "seeded", sid)
     if not os.path.isdir(d) or (only and sid not in only) or sid.startswith("neutral"):
         continue
     meta = json.load(open(os.path.join(d, "meta.json")))
-    rc, out = sh(f"git apply {d}/patch.diff", "/repo")
+    rc, out = sh(f"git apply {d}/patch.diff", ROOT)
     fired = {}
     try:
         if rc != 0:
@@ -24,14 +25,14 @@ for sid in sorted(os.listdir(os.path.join(VERIF, "seeded"))):
         else:
             meta["applies_to_repo_head"] = True
             for p in PROPS:
-                rc, o = sh(f"./check {p} --tier quick", VERIF)
+                rc, o = sh(f"./check {p} --tier quick --root {ROOT}", VERIF)
                 if rc != 0:
                     fired[p] = [l.strip()[:300] for l in o.splitlines() if l.startswith("  rule") or l.startswith("CHECK-BROKEN")][:6]
     finally:
-        sh("git checkout -- .", "/repo")
+        sh("git checkout -- .", ROOT)
     meta["checks_fired_final"] = fired
     meta["detected_by_target_property_final"] = meta["property"] in fired
     json.dump(meta, open(os.path.join(d, "meta.json"), "w"), indent=1)
     rows.append((sid, meta))
     print(sid, "target:", meta["property"] in fired, "fired:", sorted(fired))
-assert not sh("git status --short", "/repo")[1].strip(), "/repo not restored"
+assert not sh("git status --short", ROOT)[1].strip(), ROOT + " not restored"
